@@ -26,8 +26,14 @@ partial def flatMethods (j : Json) (pre : Route) : Except String (List (Route ×
   return out
 
 /-- the OPTIONS tree: every distinct route pattern once per application (a route registered by two items keeps one node) -/
-partial def optionsApp (j : Json) (next : Nat) (pre : Route) (tbl : List (Route × List String)) : Except String (App × Nat) := do
+partial def optionsApp (j : Json) (next : Nat) (pre : Route) (tbl : List (Route × List String)) (taken : List Route := []) : Except String (App × Nat) := do
   let id := next
+  -- flat patterns this application registers itself (a mounted application's route at the same flat pattern joins the same node:
+  -- the automatic OPTIONS handler is re-registered with the union of the methods after the mount)
+  let own ← (← jarr j "items").toList.filterMapM fun it => do
+    match jopt it "mount" with
+    | some _ => pure none
+    | none => pure (some (pre ++ parseRoute (toBytes (← jstr it "route"))))
   let mut routes : List (Route × Nat) := []
   let mut mounts : List (Route × App) := []
   let mut n := next + 1
@@ -35,11 +41,11 @@ partial def optionsApp (j : Json) (next : Nat) (pre : Route) (tbl : List (Route 
     match jopt it "mount" with
     | some mt =>
       let r := parseRoute (toBytes (← mt.getStr?))
-      let (sub, n') ← optionsApp (← it.getObjVal? "app") n (pre ++ r) tbl
+      let (sub, n') ← optionsApp (← it.getObjVal? "app") n (pre ++ r) tbl (taken ++ own)
       mounts := mounts ++ [(r, sub)]; n := n'
     | none =>
       let r := parseRoute (toBytes (← jstr it "route"))
-      if !(routes.any fun x => x.1 == r) then
+      if !(routes.any fun x => x.1 == r) && !(taken.contains (pre ++ r)) then
         -- handler id = index of the flat pattern in the table of method unions
         routes := routes ++ [(r, (tbl.findIdx? fun x => x.1 == pre ++ r).getD 0)]
   return (App.mk id false routes mounts, n)
